@@ -386,7 +386,11 @@ def norm_mutation(rec):
     out = dict(rec)
     out['attrs'] = as_dict(rec.get('attrs'))
     out['val'] = [list(t) for t in (rec.get('val') or [])]
-    out['ival'] = list(rec.get('ival') or [])
+    # index / constraint entries: an absent condition / expression and an explicit "none" are the same
+    out['ival'] = [dict((k_, v_) for k_, v_ in as_dict(x).items()
+                        if not (k_ in ('cond', 'expr') and v_ in (NONE, None)))
+                   if isinstance(x, (dict, list)) else x
+                   for x in (rec.get('ival') or [])]
     return out
 
 
